@@ -242,6 +242,10 @@ where
     R: tokio::io::AsyncRead + Unpin,
 {
     let mut interval = tokio::time::interval(tokio::time::Duration::from_millis(FLUSH_INTERVAL_MS));
+    #[cfg(pnordahl_monorail_verif)]
+    let mut interval = tokio::time::interval(tokio::time::Duration::from_millis(
+        crate::verif::flush_interval_ms(FLUSH_INTERVAL_MS),
+    ));
     loop {
         let mut bufs = Vec::new();
         loop {
@@ -267,6 +271,10 @@ where
                     }
                 }
                 _ = interval.tick() => {
+                    #[cfg(pnordahl_monorail_verif)]
+                    if !buf.is_empty() {
+                        crate::verif::probe("tick_with_partial_line");
+                    }
                     process_bufs(&header, bufs, &compressor_client, &mut log_stream_client, false).await?;
                     break;
                 }
